@@ -69,13 +69,15 @@ NoGlobCopyReplaces == "GlobCopyReplaces" \notin R.m2.devs
 NoCrash == ~R.m2.crash
 NoCoreNotHidden == "CoreNotHidden" \notin R.m2.devs
 
-\* (G) programs worth assembling: the last statement is a probe, or the program is rejected
+\* (G) programs worth assembling: no error before the last statement, and the last statement is a probe or rejected
 IsProbe(st) == st.k \in {"call", "ifdef"}
-Rejected(p) == DPass1(p).ek # {} \/ LET m == Pass1(p) IN m.errs > 0 \/ m.crash
-Worth == /\ prog # <<>> /\ Len(prog) <= Family(fam).printlen
-         /\ ~Rejected(Closed(Front(prog)))                 \* a program rejected before its last statement says nothing new
-         /\ (IsProbe(prog[Len(prog)]) \/ Rejected(P))
+Worth(r) == /\ prog # <<>> /\ Len(prog) <= Family(fam).printlen
+            /\ CleanBefore(r, Len(prog))
+            /\ (IsProbe(prog[Len(prog)]) \/ r.m1.errs > 0 \/ r.m1.crash \/ r.d1.ek # {})
 Row(m, d) == [exp |-> DOutcome(d), coded |-> MOutcome(m), devs |-> m.devs]
-Dump == Worth => LET r == Runs(P) IN
-          PrintT(<<"MS", ToJson([prog |-> P, indef |-> Indef(P), one |-> Row(r.m1, r.d1), two |-> Row(r.m2, r.d2)])>>)
+DumpOf(r) == Worth(r) => PrintT(<<"MS", ToJson([prog |-> P, indef |-> Indef(P), one |-> Row(r.m1, r.d1), two |-> Row(r.m2, r.d2)])>>)
+Dump == DumpOf(Runs(P))
+\* model check and export on ONE evaluation of the runs
+InvAllDump == LET r == Runs(P) IN Agrees(r) /\ NoDevWhenFixed(r) /\ DevsNamed(r) /\ LaterPassesAlike(r)
+                                  /\ TableIsInnermostKnown(P, r) /\ DumpOf(r)
 =============================================================================
